@@ -125,7 +125,7 @@ func VHC14Wrapper() {
 	vh.Assume(vh.Not(vh.OneOf(s[0], "'\"\\\n\r")))
 	prog := "BEGIN { print '" + s + "' }\n" + c14Prog
 	src := vh.Choose("progsrc", 2) // 0 inline, 1 -f
-	inp := vh.Choose("inputs", 4)  // 0 stdin, 1 one file, 2 two files, 3 a missing file
+	inp := vh.Choose("inputs", 6)  // 0 stdin, 1 one file, 2 two files, 3 a missing file, 4 the same file twice, 5 the input file is also the -o file
 	nsel := vh.Choose("nsel", 4)   // 0-2 selectors, or one whose text holds commas, blanks and the symbolic byte
 	outm := vh.Choose("omode", 3)  // 0 none, 1 "-o -", 2 "-o out.json"
 	sels := []string{"$", "[$]"}
@@ -180,6 +180,25 @@ func VHC14Wrapper() {
 	case 3:
 		p.Data["a.json"] = &vh.DocStream{Items: c14Docs("a", ds)}
 		args = append(args, "a.json", "nosuch.json")
+	case 4:
+		p.Data["a.json"] = &vh.DocStream{Items: c14Docs("a", ds)}
+		p.Data["b.json"] = &vh.DocStream{Items: c14Docs("b", ds)}
+		args = append(args, "a.json", "b.json", "a.json")
+		names = []string{"a.json", "b.json", "a.json"}
+	case 5:
+		// rewriting a document in place: the file named by -o is the input file
+		if outm != 2 {
+			return
+		}
+		for i, a := range args {
+			if a == "out.json" {
+				args[i] = "a.json"
+			}
+		}
+		delete(p.Texts, "out.json")
+		p.Data["a.json"] = &vh.DocStream{Items: c14Docs("a", ds)}
+		args = append(args, "a.json")
+		names = []string{"a.json"}
 	}
 	p.Args = args
 	res := vh.RunCLI(cli.Run, p)
@@ -215,6 +234,10 @@ func VHC14Wrapper() {
 		vh.Assert(res.Stdout == lout+ljson, "C14: -o - prints the JSON of the root after the program's own output, byte for byte")
 	case 2:
 		vh.Assert(res.Stdout == lout, "C14: with -o FILE standard output is the program's own output")
-		vh.Assert(res.Written["out.json"] == ljson, "C14: -o FILE receives exactly the bytes -o - prints")
+		ofile := "out.json"
+		if inp == 5 {
+			ofile = "a.json"
+		}
+		vh.Assert(res.Written[ofile] == ljson, "C14: -o FILE receives exactly the bytes -o - prints (also when FILE is the input file)")
 	}
 }
